@@ -19,7 +19,7 @@ def projection(h, pid, declared):
             continue
         opts = (e.get('inputs') or {}).get('options') or {}
         name = e['nid'] if e['nid'] in declared else '~'
-        msgs[(e['type'], name, e['key'], e['uses'], e['state'], json.dumps(opts.get('$index')), json.dumps(opts.get('$value')))] += 1
+        msgs[(e['type'], name, ('~' if name == '~' and e['key'] == e['nid'] else e['key']), e['uses'], e['state'], json.dumps(opts.get('$index')), json.dumps(opts.get('$value')))] += 1
     cbs = collections.Counter((e['what'], e['state'], json.dumps({k: v for k, v in clean(e.get('outputs') or {}).items() if k != 't'}, sort_keys=True)) for e in h.cbs if e['pid'] == pid)
     # final task outcomes come from the task rows: under a small cache the process may not be cached any more
     snap = h.final_snapshot() or {}
@@ -52,6 +52,8 @@ class LoadFamily:
                 wf['id'] = f'm{j}'
                 wf['inputs']['t'] = 0
                 wf['outputs'] = {'t': None}
+                if rng.random() < 0.3:
+                    wf = flow.strip_ids(wf, rng)
             models.append(wf)
         N = rng.choice(opts.get('ns') or [2, 4, 8])
         cap = rng.choice([1, 2, 4, N, 1024, 1024])
@@ -132,7 +134,7 @@ class LoadFamily:
                 extra = list((pj[0] - base[0]).items())[:3]
                 reloaded = any(e['pid'] == pid and e['via'] == 'load' for e in L.states)
                 cfg = ('cache-smaller-than-load' if evicted else 'all-cached') + (':reloaded-while-active' if reloaded else '')
-                out.append(V('C13', 'differs-from-solo-run', f"{'|'.join(sorted(cls))[:120]}:{cfg}:{L.race_tag(pid)}", f"{pid} (model {it['mid']}, a={it['vars']['a']} b={it['vars']['b']}) under load N={m['N']} cap={m['cap']} workers={m['workers']} {m['mode']}: missing {miss} extra {extra}; events {sorted(pj[1])} vs solo {sorted(base[1])}", scenario=sc['id']))
+                out.append(V('C13', 'differs-from-solo-run', f"{'|'.join(sorted(cls))[:120]}:{m['kind']}:{cfg}:{L.race_tag(pid)}", f"{pid} (model {it['mid']}, a={it['vars']['a']} b={it['vars']['b']}) under load N={m['N']} cap={m['cap']} workers={m['workers']} {m['mode']}: missing {miss} extra {extra}; events {sorted(pj[1])} vs solo {sorted(base[1])}", scenario=sc['id']))
             # no value of another process
             for e in L.cbs:
                 if e['pid'] == pid and e['what'] == 'complete':
